@@ -22,6 +22,7 @@ type C16Trans struct {
 	Via       string   `json:"via"` // events | resync
 	EventSeed int64    `json:"event_seed"`
 	Ops       []string `json:"mutations,omitempty"` // how B was derived from A (informational)
+	Exec      string   `json:"exec_mode,omitempty"` // "" | ipset | iptables: exec-backed runner for that tool
 }
 
 func (t *C16Trans) clone() *C16Trans {
@@ -229,6 +230,12 @@ func genC16Trans(rng *rand.Rand, idx int, o genOpts) *C16Trans {
 	}
 	// every other pair of transition cases consists of exactly one mutation
 	t.B, t.Ops = mutateForC16(rng, t.A, o, k/4, (k/2)%2 == 0)
+	switch (k / (4 * len(c16Mutations))) % 4 { // independent of via, single/multi and the first mutation
+	case 1:
+		t.Exec = "ipset"
+	case 3:
+		t.Exec = "iptables"
+	}
 	return t
 }
 
@@ -501,7 +508,7 @@ func evalC16T(tc *C16Trans) *c16Result {
 	w := newWorld()
 	model := tc.A.clone()
 	w.load(model)
-	e := newEnv(w)
+	e := newEnvMode(w, tc.Exec)
 	if pi := e.fullSync(); pi != nil {
 		res.addViol("c16-full-sync-panic-in-"+pi.Func, "full sync panicked: "+pi.Value, pi)
 		return res
@@ -576,6 +583,9 @@ func evalC16T(tc *C16Trans) *c16Result {
 	}
 	for _, rj := range e.takeRejects() {
 		res.counters["rejects_"+rj.Kind]++
+	}
+	if u := e.execReport(res.counters); u != "" {
+		res.inconclusive = "exec interpreter met an unknown command: " + u
 	}
 	return res
 }
